@@ -115,15 +115,17 @@ where
     ResItem: Unpin + Send,
 {
     pub async fn listen(&mut self) -> Result<()> {
-        let mut attempts = self.backoff_strategy.clone().into_iter();
-
         loop {
             match self.stream.listen().await {
                 Err(err) if !is_recoverable_error(&err) => {
                     logging::keep_alive::unrecoverable_error(&err);
                     return Err(err);
                 }
-                _ => self.try_reconnect(&mut attempts).await?,
+                _ => {
+                    // Every outage gets the full retry budget
+                    let mut attempts = self.backoff_strategy.clone().into_iter();
+                    self.try_reconnect(&mut attempts).await?
+                }
             };
         }
     }
